@@ -41,6 +41,9 @@ CHECKIMPLS == TRUE
 (* named deviation (C13): FALSE = what the code does: a base function whose name is taken is exposed as <field>_<name> *)
 (* even when that name is taken as well (the derived type then defines it twice); TRUE = that is an error             *)
 CHECKRENAME == TRUE
+(* named deviation (C15): FALSE = what the code does: a negative address on an extern value, or a negative singleton *)
+(* address on an enum, is cast (`as usize`) and wraps; TRUE = it is an error, as it already is for a type's singleton *)
+CHECKNEGADDR == TRUE
 
 ResNone == [k |-> "none"]
 NoVftRes == [has |-> FALSE, funcs |-> <<>>, baseField |-> "", ty |-> TNone]
